@@ -283,7 +283,7 @@ F_CONST = """CONSTANTS
   NegFix = %(negfix)s
 """
 # set (or VERIF_C18_FETCHER_REPAIRED=1) once findings/C18_fetcher_proposed_repair.patch or an equivalent is in /repo
-FETCHER_REPAIRED = os.environ.get("VERIF_C18_FETCHER_REPAIRED", "") == "1"
+FETCHER_REPAIRED = os.environ.get("VERIF_C18_FETCHER_REPAIRED", "1") == "1"  # repaired in /repo (two fix commits in you/fetcher/fetcher.go)
 F_ALL = "I_Once I_Parent I_Body I_Verif I_Bound"
 F_CLAUSES = ("FetcherImportedOnce", "FetcherParentBeforeChild", "FetcherBodyMatchesHeader", "FetcherNoImportOfUnverified",
              "FetcherBoundedState", "FetcherCompletes")
